@@ -306,15 +306,33 @@ func ruleBoundedLength(c *chk.Ctx) {
 		bounds := func(at *ssa.BasicBlock) (lower, upper bool) {
 			for _, cd := range ir.CondsAt(at) {
 				bo, ok := cd.V.(*ssa.BinOp)
-				if !ok || !taint[bo.X] {
-					continue
-				}
-				// comparisons of a pre-conversion value do not bound the converted value
-				k, isC := ir.ConstInt(bo.Y)
-				if !isC {
+				if !ok {
 					continue
 				}
 				op := bo.Op
+				var k int64
+				var isC bool
+				switch {
+				case taint[bo.X]:
+					k, isC = ir.ConstInt(bo.Y)
+				case taint[bo.Y]: // constant on the left: k OP x  ≡  x OP' k
+					k, isC = ir.ConstInt(bo.X)
+					switch op {
+					case token.LSS:
+						op = token.GTR
+					case token.GTR:
+						op = token.LSS
+					case token.LEQ:
+						op = token.GEQ
+					case token.GEQ:
+						op = token.LEQ
+					}
+				default:
+					continue
+				}
+				if !isC {
+					continue
+				}
 				if !cd.Truth {
 					switch op {
 					case token.LSS:
